@@ -1380,6 +1380,9 @@ class Executor:
         if k == 'pyconst' and isinstance(o.py, Exc):
             if attr == 'args':
                 return [(st, vtuple(o.py.args))]
+            if attr in getattr(self.ctx, 'exc_attr_nonnull', ()):
+                self.ctx.assumptions.add(f'exception attribute .{attr} is never None (constructor invariant)')
+                return [(st, vref(fresh(IntS, attr)))]
             return [(st, vany(fresh(Val, attr)))]
         if k == 'any':
             if o.maybe_none:
